@@ -73,6 +73,7 @@ type c14World struct {
 	// and every later driver call fails immediately, so that whatever can still unwind does
 	abandoned bool
 	maxOpen   int // > 0: database/sql pool limit (suite "pool"); 0 = unlimited
+	shape     int // which SQL texts stand behind the text indexes (c14ShapedSQL)
 }
 
 // ---- fake driver ----
@@ -142,7 +143,12 @@ func (r *c14Rows) Next(dest []driver.Value) error {
 	return nil
 }
 
+// c14TextOf: the text index behind an SQL text of a forced world (texts of the non-default SHAPES are registered by
+// c14ShapedSQL, harness/c14_texts.go: they need not be parseable — the empty text, texts differing only in letter case)
 func c14TextOf(q string) int {
+	if v, ok := c14ShapeIndex.Load(q); ok {
+		return v.(int)
+	}
 	var n int
 	fmt.Sscanf(q, "SELECT %d", &n)
 	return n
@@ -323,7 +329,7 @@ func (w *c14World) runOp(tid int) (res string) {
 	op := w.ops[tid]
 	ctx := context.WithValue(context.Background(), c14TidKey{}, tid)
 	v := w.views[op.View]
-	q := c14SQL(op.Text)
+	q := c14ShapedSQL(w.shape, op.Text)
 	switch op.Kind {
 	case "reset":
 		v.Reset()
@@ -363,7 +369,7 @@ func (w *c14World) runOp(tid int) (res string) {
 		}
 		tx := cp.(*gorm.PreparedStmtTX)
 		for k := 0; k < 2 && err == nil; k++ {
-			qk := c14SQL(op.Text + 2*k)
+			qk := c14ShapedSQL(w.shape, op.Text+2*k)
 			var r sql.Result
 			r, err = tx.ExecContext(ctx, qk)
 			if err == nil {
